@@ -304,7 +304,8 @@ func (s *State) evalNode(node any) object.Object { //nolint:funlen,gocognit,gocy
 		if node.ReturnValue == nil {
 			return object.ReturnValue{Value: object.NULL, ControlType: token.RETURN}
 		}
-		val := s.evalInternal(node.ReturnValue)
+		// (the value of a loop variable or parameter, not its live register, which is reused once the loop or call is left)
+		val := object.CopyRegister(s.evalInternal(node.ReturnValue))
 		return object.ReturnValue{Value: val, ControlType: token.RETURN}
 	case *ast.Builtin:
 		return s.evalBuiltin(node)
